@@ -65,6 +65,11 @@ def handle (op : String) (args impl : List String) : Option Out :=
   | "probe_version" => some <|
     let v := [libVersion.x, libVersion.y, libVersion.z]
     cmp "probe_version" ["ok", fmtVer v, fmtVer v, fmtStr Gen.fileFormat] impl
+  -- vgate3 … rw 0: a plain read-only session on the file is open meanwhile (where the gate lets one in): the read-write request is
+  -- refused — by the gate when the versions are not identical, by HDF5 otherwise; it never comes back as a handle of another mode
+  | "vgate3" => some <|
+    let accepted := impl.head? == some "ok"
+    judge "vgate3" ["err"] (impl.take 1) [("readwrite_request_is_not_answered_with_another_mode", !accepted)]
   | "vgate" | "vgate2" => some <|      -- vgate2: a forced read-write session on the same file is open meanwhile; the gate judges each open on its own
     match args with
     | [vtok, ftok, idtok, mtok, ftok2] =>
